@@ -709,6 +709,91 @@ def eve(run, r, n_cases, n_goals):
             ck.fail('EveCallback/batches-run', f'train batches generated per epoch {batches}, n_batches set by the callback {seen}', inp, expected=seen[:-1], actual=batches[1:])
 
 
+def eve_boundaries(run, r, thorough):
+    """EveCallback EXACTLY at the doubling points v = v_0 * p^k (documented: "When v/v_0 = p^k, the number of batches will
+    be n_0 * 2^k"): v_0, p given as decimal literals and v their exact rational product rounded once to a float (what a
+    user would type, e.g. 1000, 0.9, 810.0), or v computed in floats as v_0 * p ** k (as the repo's own test does); non-dyadic
+    p, where the float quotient of the logarithms lands just below or above k.  Expected count from exact rational
+    arithmetic.  One ulp above / below v only the two neighbouring counts are accepted (that is inside the 'away from
+    doubling boundaries' exclusion of the property)."""
+    import math
+    from fractions import Fraction
+    ck = run.ck
+    CB = run.CB
+    ps = ['0.9', '0.3', '0.7', '0.99', 'third', '0.6', '0.5', '0.1', '1.5', '3']
+    v0s = ['1', '10', '1000', '0.001']
+    combos = [(a, b, k, mode) for a in ps for b in v0s for k in range(0, 8) for mode in ('decimal', 'floatpow')]
+    if not thorough:
+        fixed = [('0.9', '1000', 2, 'decimal'), ('0.3', '10', 3, 'decimal'), ('0.7', '1', 5, 'floatpow'), ('third', '1', 4, 'floatpow'), ('0.99', '0.001', 7, 'decimal')]
+        combos = fixed + r.sample(combos, 150)
+    ngoals = 0
+    for (ps_, v0s_, k, mode) in combos:
+        pf, pq = (1 / 3, Fraction(1, 3)) if ps_ == 'third' else (float(ps_), Fraction(ps_))
+        v0f, v0q = float(v0s_), Fraction(v0s_)
+        v = float(v0q * pq ** k) if mode == 'decimal' else v0f * pf ** k
+        n0 = r.choice([1, 1, 2, 3])
+        nmax = r.choice([None, None, 5, 40])
+        want = n0 * 2 ** k if nmax is None else min(n0 * 2 ** k, nmax)
+        lower = n0 * 2 ** max(0, k - 1) if nmax is None else min(n0 * 2 ** max(0, k - 1), nmax)
+        upper = n0 * 2 ** (k + 1) if nmax is None else min(n0 * 2 ** (k + 1), nmax)
+        for where, vv in (('at', v), ('ulp-above', math.nextafter(v, math.inf)), ('ulp-below', math.nextafter(v, 0.0))):
+            stub = T.Stub(1, 1, 1)
+            stub.metrics_history = {'train_loss': [vv], 'valid_loss': []}
+            stub.n_batches = {'train': 1, 'valid': 3}
+            inp = {'scenario': 'eve-doubling-point', 'base_value': v0f, 'double_at': pf, 'value': vv, 'value_repr': repr(vv), 'k': k, 'n_0': n0, 'n_max': nmax,
+                   'how': f'{where}: v = {v0s_} * {ps_}^{k} ({mode})'}
+            ck.add_case(('eve-point', ps_, v0s_, k, mode, where, n0, nmax))
+            ck.traces += 1
+            run.count('eve_doubling_points_' + where)
+            try:
+                kw = {} if nmax is None else {'n_max': nmax}
+                CB.EveCallback(base_value=v0f, double_at=pf, n_0=n0, **kw)(stub)
+                got = stub.n_batches['train']
+            except Exception as ex:
+                ck.fail('EveCallback/raises', f'{type(ex).__name__}: {ex}', inp)
+                continue
+            if where == 'at':
+                if got != want:
+                    ck.fail('EveCallback/doubling-point', f'EveCallback(base_value={v0f!r}, double_at={pf!r}, n_0={n0}, n_max={nmax}) with metric value {vv!r} = v_0 * p^{k} '
+                            f'sets n_batches[train] = {got!r}, documented n_0 * 2^{k} (capped) = {want}', inp, expected=want, actual=got)
+                label = f'eve-point#{len(run.cases)}'
+                try:
+                    gz = T.z(int(got))
+                except Exception:
+                    gz = '(-1)'
+                run.cases.append((label, f'eve_batches {n0} {T.optz(nmax)} {T.z(k)} =? {gz}'))
+                run.inputs[label] = inp
+                if ngoals < (12 if thorough else 4) and ps_ != 'third' and k > 0:
+                    ngoals += 1
+                    expr = f'((ln ({float_lit(vv)}) - ln ({float_lit(v0f)})) / ln ({float_lit(pf)}))'
+                    run.goals.append((f'eve-point-log#{ngoals}', expr, float(k), '(1 / 1000000000)'))
+            elif got not in (want, lower if where == ('ulp-above' if pf < 1 else 'ulp-below') else upper):
+                ck.fail('EveCallback/near-doubling-point', f'one ulp from v_0 * p^{k}: n_batches[train] = {got!r}, neither of the two neighbouring counts', inp,
+                        expected=[want, lower, upper], actual=got)
+    # the same through a real fit(): the value reaches the history through the scripted loss unchanged
+    for (ps_, v0s_, k) in [('0.9', '1000', 2), ('0.3', '10', 3), ('0.7', '1', 4)]:
+        pf, v0f = float(ps_), float(v0s_)
+        vals = [float(Fraction(v0s_) * Fraction(ps_) ** j) for j in (k, 0, k + 1, 1)]
+        s = run.ctx.solver(valid_on=True)
+        holder = {'s': s}
+        s._set_loss_fn(E.scripted_loss(holder, vals + [1.0], vals + [1.0]))
+        seen = []
+        ev = CB.EveCallback(base_value=v0f, double_at=pf, n_0=1, n_max=64)
+        inp = {'scenario': 'eve-doubling-point-fit', 'base_value': v0f, 'double_at': pf, 'train_losses': vals, 'ks': [k, 0, k + 1, 1]}
+        try:
+            for _ in range(4):
+                s.fit(1, callbacks=[ev, lambda sol: seen.append(sol.n_batches['train'])], tqdm_file=None)
+                if not (0 <= seen[-1] <= 64):
+                    s.n_batches['train'] = 1
+        except Exception as ex:
+            ck.fail('EveCallback/raises', f'{type(ex).__name__}: {ex}', inp)
+            continue
+        ck.add_case(('eve-point-fit', ps_, v0s_, k))
+        want = [2 ** k, 1, 2 ** (k + 1), 2]
+        if seen != want:
+            ck.fail('EveCallback/doubling-point', f'under fit(): losses {vals} = v_0 * p^{[k, 0, k + 1, 1]} give n_batches[train] {seen}, documented {want}', inp, expected=want, actual=seen)
+
+
 def misc(run):
     """conditioned_on / set_action_callback type checks; a condition without action only logs."""
     ck = run.ck
@@ -793,6 +878,7 @@ def main():
     timed('monitor', monitor, run, ck.rng('monitor'))
     timed('optimizer_params', optimizer_params, run, ck.rng('opt'))
     timed('eve', eve, run, ck.rng('eve'), 800 if th else 80, 24 if th else 6)
+    timed('eve_doubling_points', eve_boundaries, run, ck.rng('eve-points'), th)
     timed('repeated', repeated_mass, run, ck.rng('repeated'), 500 if th else 60)
     timed('shared_subexpressions', dag_mass, run, ck.rng('dag'), 150 if th else 30)
     timed('regressions_repeated', regressions_repeated, run, ck.rng('known'), 60 if th else 8)
@@ -814,6 +900,8 @@ def main():
         run.cases = []
         stub_grid(run, ck.rng('search', 'stub'), 600)
         eve(run, ck.rng('search', 'eve'), 400, 0)
+        eve_boundaries(run, ck.rng('search', 'eve-points'), True)
+        run.goals = run.goals[:0]
         run.cases = []
 
     ck.extra['input_distribution'] = dict(sorted(run.dist.items()))
